@@ -215,7 +215,7 @@ func c15Build(r *Run, state string) *c15Setup {
 		o := w.Apply(a)
 		pre = append(pre, a)
 		if !o.OK {
-			r.HarnessError("preamble %s failed: %s%s", a.Desc, o.Err, o.PanicVal)
+			panic(preambleFailed{fmt.Sprintf("%s: %s%s", a.Desc, o.Err, o.PanicVal)})
 		}
 		return o
 	}
